@@ -278,4 +278,4 @@ static bool parse_case(const std::string &text, Case &c) {
     for (size_t i = 0; i < c.t.areas.size(); i++) c.content[i].resize(c.t.areas[i].size);
     return true;
 }
-int main(int argc, char **argv) { return vp::main_(argc, argv, {run, replay}); }
+VP_MAIN(run, replay)
